@@ -1,6 +1,6 @@
 (* Extraction of the orchestrator transition system, its oracles (C04, C11) and the lock model.  ExtrOcamlBasic only. *)
 From Coq Require Import Extraction ExtrOcamlBasic.
-From Robsd Require Import Orch.OrchSpec Orch.RunLock.
+From Robsd Require Import Orch.OrchSpec Orch.RunLock Orch.LoopEnd.
 Extraction Language OCaml.
 Extraction "or_model.ml" oinit ostep orun main_step job_step spec_ok_trace spec_ok_account trap_exit Nat.pred
-  lock_acquire lock_release attempt.
+  lock_acquire lock_release attempt fell_off trap_exit_of.
